@@ -86,6 +86,13 @@ fn optionalizable(r: &Record) -> Vec<String> {
 /// all versions 0..=n of the history (`versions[i]` = the record after `i` steps). `prefix` makes field names unique
 /// per history when needed ("f" / "a" by default).
 pub fn build_history(spec: &HistorySpec, menu: &[Ty]) -> Vec<Record> {
+    build_history_opts(spec, menu, false)
+}
+
+/// `relaxed`: FieldRemoved / FieldMadeTransient may hit ANY serialized field, not only the last one of its chunk.
+/// Such histories are not legal evolutions (C03 does not use them); they make readers meet headers and field
+/// layouts that legal histories never produce, which is what C06 wants to feed a decoder with.
+pub fn build_history_opts(spec: &HistorySpec, menu: &[Ty], relaxed: bool) -> Vec<Record> {
     let mut cur = Record { fields: Vec::new(), steps: Vec::new() };
     for (i, f) in spec.init.iter().enumerate() {
         let ty = menu[pick(f.ty_sel, menu.len())].clone();
@@ -99,7 +106,7 @@ pub fn build_history(spec: &HistorySpec, menu: &[Ty]) -> Vec<Record> {
         }
         let mut kind = st.kind;
         let opt = optionalizable(&cur);
-        let rem = removable(&cur);
+        let rem = if relaxed { cur.fields.iter().filter(|f| is_serialized(f)).map(|f| f.name.clone()).collect() } else { removable(&cur) };
         if kind == StepKind::MakeOptional && opt.is_empty() {
             kind = StepKind::Add;
         }
